@@ -769,6 +769,8 @@ def m_vec_clear(it, a, ty, callee):
 def install(it):
     A = it.add_model
     _IT[0] = it
+    A(r'<std::collections::VecDeque<.*> as std::convert::From<std::vec::Vec<.*>>>::from', lambda it, a, ty, c: a[0])
+    A(r'<std::vec::Vec<.*> as std::convert::From<std::collections::VecDeque<.*>>>::from', lambda it, a, ty, c: a[0])
     A(r'std::(vec::Vec|collections::VecDeque)::<.*>::clear', m_vec_clear)
     A(r'(?:core|std)::slice::<impl \[.*\]>::reverse', m_slice_reverse)
     A(r'std::(vec::Vec|collections::VecDeque)::<.*>::retain(_mut)?::<.*>', m_retain)
